@@ -55,7 +55,10 @@ def c09(ctx: Ctx):
     ctx.assumptions = [
         "TLC and the CommunityModules (Json, CSV, SequencesExt, FiniteSetsExt)",
         "spec/Router.tla Failed() as the transcription of the C09 statement; path segments, literals, host labels and values are "
-        "atomic strings (no percent-encoding, no regex/wildcard path syntax, one variable = one whole segment, no '/' template)",
+        "atomic strings (no percent-encoding, no regex/wildcard path syntax, no '/' template); variables inside a segment "
+        "(/v{n}, /files/report.{ext}, /{p}-{q}) are matched through the self-checked character dictionary Router!Cs and are "
+        "demanded of gorillamux only -- for the legacy router, which documents non-support, documents with such a segment are "
+        "an open region (no panic / non-route error is still demanded)",
         "harness/c09.go realiser (abstract document -> OpenAPI JSON -> real loader + Validate -> both NewRouter; abstract request -> "
         "http.NewRequest) guarded by the round trip judged by TLC (path keys, methods, operationIds, path-level and document-level "
         "server URLs and variable defaults as loaded; URL string and method of the built request); route errors are told apart "
@@ -101,7 +104,7 @@ def c09(ctx: Ctx):
                 f.write(json.dumps(w) + "\n")
     ctx.build_driver()
     logp = os.path.join(ctx.scratch, "log.ndjson")
-    ctx.drive(cases, logp)
+    ctx.drive(cases, logp, shards=4)
     rng = random.Random(ctx.seed)
     nlines = 0
     docs = set()
@@ -127,7 +130,9 @@ def c09(ctx: Ctx):
         if o.get("load") == "ok" and o.get("reqs"):
             ctx.samples.append(dict(doc=o["doc"], req=o["reqs"][0], gorillamux=o["g"][0], legacy=o["l"][0]))
     ctx.extra["documents"] = len(docs)
-    ctx.rule = ("documents = template families over segments {a, b, {var}} with a method set per template (GET, POST or both), crossed "
+    ctx.rule = ("documents = template families over segments {a, b, {var}} -- plus a 'mixed' universe of 11 templates with variables "
+                "inside a segment and their literal / plain-variable competitors (/v{n}, /v1, /{x}, /files/report.{ext}, "
+                "/files/report.pdf, /files/{x}, /{p}-{q}, /a-b, /v{n}/a, /v1/{x}, /a/v{n}) -- with a method set per template (GET, POST or both), crossed "
                 "with 9 server shapes (none; relative; relative with trailing slash; '/'; absolute; absolute with host and port "
                 "variables; two absolute servers; path-level servers on the first / the last template), enumerated by TLC "
                 "(spec/Gen_C09.tla, bounds in spec/MC_C09_*.cfg: BFS for the core, BFS with seeded 1/Slice emission and "
